@@ -45,8 +45,38 @@ func (c *Ctx) NaturalTypes() []core.Ob {
 		o := core.Ob{Rule: "T-NATURAL", Key: name + "->interface", Pos: c.P.Pos(cc.Pos()), Func: dec.fn, Armed: true, Status: core.OK,
 			Want: "a " + name + " decoded into an interface{} target is stored as " + nat}
 		found := false
-		for _, hb := range c.withHelpers(dec.pkg, cc, dec.decl, 2) {
+		hbs := c.withHelpers(dec.pkg, cc, dec.decl, 2)
+		// generic helpers on the way: the type arguments they are instantiated with in this clause
+		instArgs := map[types.Object][]types.Type{}
+		for _, hb := range hbs {
+			hinfo := hb.pk.TypesInfo
+			ast.Inspect(hb.node, func(n ast.Node) bool {
+				call, ok := n.(*ast.CallExpr)
+				if !ok {
+					return true
+				}
+				fun := ast.Unparen(call.Fun)
+				if ix, ok := fun.(*ast.IndexExpr); ok {
+					fun = ix.X
+				}
+				if id, ok := fun.(*ast.Ident); ok {
+					if inst, ok := hinfo.Instances[id]; ok && inst.TypeArgs != nil {
+						var ts []types.Type
+						for i := 0; i < inst.TypeArgs.Len(); i++ {
+							ts = append(ts, inst.TypeArgs.At(i))
+						}
+						instArgs[hinfo.Uses[id]] = ts
+					}
+				}
+				return true
+			})
+		}
+		for _, hb := range hbs {
 			info := hb.pk.TypesInfo
+			var helperObj types.Object
+			if hb.decl != nil {
+				helperObj = info.Defs[hb.decl.Name]
+			}
 			ast.Inspect(hb.node, func(n ast.Node) bool {
 				inner, ok := n.(*ast.CaseClause)
 				if !ok || inner == cc {
@@ -56,6 +86,14 @@ func (c *Ctx) NaturalTypes() []core.Ob {
 				for _, e := range inner.List {
 					if k, ok := reflectKindName(info, e); ok && k == "Interface" {
 						isIface = true
+					}
+					// a tagless switch: case kind == reflect.Interface
+					if be, ok := ast.Unparen(e).(*ast.BinaryExpr); ok && be.Op == token.EQL {
+						for _, side := range []ast.Expr{be.X, be.Y} {
+							if k, ok := reflectKindName(info, side); ok && k == "Interface" {
+								isIface = true
+							}
+						}
 					}
 				}
 				if !isIface {
@@ -71,6 +109,12 @@ func (c *Ctx) NaturalTypes() []core.Ob {
 					if fo := calleeObj(info, call); fo != nil && fo.Pkg() != nil && fo.Pkg().Path() == "reflect" && fo.Name() == "ValueOf" && len(call.Args) == 1 {
 						stores++
 						t := info.TypeOf(call.Args[0])
+						// the value has the type parameter of a generic helper: what this clause instantiates it with
+						if tp, ok := types.Unalias(t).(*types.TypeParam); ok && helperObj != nil {
+							if args, ok := instArgs[helperObj]; ok && tp.Index() < len(args) {
+								t = args[tp.Index()]
+							}
+						}
 						if t == nil || t.String() != nat {
 							o.Status, o.Got = core.Violated, fmt.Sprintf("stores a %v, the natural type of %s is %s", t, name, nat)
 						}
